@@ -209,6 +209,10 @@ def error_context(text: str, index: int) -> tuple[str, int, int]:
         if index < cumulative_length:
             target_line_index = i
             break
+    else:
+        if lines[-1] != text.splitlines()[-1]:
+            # `index` is after a trailing newline, on an empty last line.
+            return ("", len(lines) + 1, 1)
 
     # Line number (1-based)
     line_number = target_line_index + 1
